@@ -247,3 +247,72 @@ Example ex_reannounced_within_one_report :
   class_table P0 (run P0 [CTick; rep mem3 1 10; CTick; rep2]) 1 =
     Some (10, [(11, 5, 10, (true, false, false)); (12, 5, 0, (false, false, true)); (10, 10, 0, (false, false, true))], false).
 Proof. vm_compute. repeat split; reflexivity. Qed.
+
+(** ** Placement: "a NodeHost silent for longer than the timeout is never used for placement or restore while one
+       that reported more recently than the timeout is eligible", on the scheduler model (theories/Sched.v,
+       proofs/SchedEligibleProofs.v).  [Sched.allowed P C o]: o is an outcome [Drummer.maintainShards] may have
+       in context C for some map order and random source; it is a function of the CURRENT context only - what an
+       earlier round showed to the (long-lived) scheduler object must not matter.  [repair_action P C c = AAdd]:
+       shard c has a healthy majority, a failed member, nobody waiting, nothing to restore and no surplus
+       member: a replacement has to be placed this round.  (The names of Sched are used qualified: Sched and
+       DBClassesRun both define a [host_live].) *)
+From Drummer.Model Require Sched SchedRun.
+From Drummer.Proofs Require SchedProofs SchedEligibleProofs.
+
+(* a round fails with errNotEnoughNodeHost only when some shard that needs a replacement has NO NodeHost that
+   reported more recently than the timeout and hosts no replica of it ... *)
+Theorem C05_error_means_no_recent_host : forall P C,
+  Sched.ctx_wf C -> Sched.allowed P C Sched.OError = true ->
+  exists c, c ∈ Sched.entries C /\ Sched.repair_action P C c = Sched.AAdd /\
+    forall h, h ∈ Sched.host_list C -> Sched.c_tick C - h_tick h < p_ttl P -> s_id c ∈ h_shards h.
+Proof. exact SchedEligibleProofs.error_names_starved_shard_hosts. Qed.
+Print Assumptions C05_error_means_no_recent_host.
+
+(* ... so with such a NodeHost for every shard in need the round does not fail *)
+Theorem C05_recent_host_no_error : forall P C,
+  Sched.ctx_wf C ->
+  (forall c, c ∈ Sched.entries C -> Sched.repair_action P C c = Sched.AAdd ->
+     exists h, h ∈ Sched.host_list C /\ Sched.c_tick C - h_tick h < p_ttl P /\ s_id c ∉ h_shards h) ->
+  Sched.allowed P C Sched.OError = false.
+Proof. exact SchedEligibleProofs.no_error_when_eligible. Qed.
+Print Assumptions C05_recent_host_no_error.
+
+(* and in a round that returns a batch every shard in need gets its ADD, onto a NodeHost that reported more
+   recently than the timeout (never onto one silent for longer) and hosts no replica of the shard *)
+Theorem C05_replacement_placed_on_recent_host : forall P C b c,
+  Sched.ctx_wf C -> Sched.allowed P C (Sched.OBatch b) = true ->
+  c ∈ Sched.entries C -> Sched.repair_action P C c = Sched.AAdd ->
+  exists q h, q ∈ b /\ Sched.is_add q = true /\ q_shard q = s_id c /\ q_addrs q = [h_addr h] /\
+    h ∈ Sched.host_list C /\ Sched.c_tick C - h_tick h < p_ttl P /\ s_id c ∉ h_shards h.
+Proof. exact SchedEligibleProofs.due_is_placed. Qed.
+Print Assumptions C05_replacement_placed_on_recent_host.
+
+(* the same against the report HISTORY: in the context of a reachable DB state, "reported more recently than the
+   timeout" is about the DB time of the last report that address sent, however long ago it was first seen *)
+Theorem C05_recent_reporter_no_error : forall P cs d,
+  run P cs = Live d ->
+  (forall c, c ∈ Sched.entries (Sched.ctx_of_db d) -> Sched.repair_action P (Sched.ctx_of_db d) c = Sched.AAdd ->
+     exists a h, d_hosts d !! a = Some h /\ d_tick d - last_host_time P (Live db_init) cs a < p_ttl P /\
+                 s_id c ∉ h_shards h) ->
+  Sched.allowed P (Sched.ctx_of_db d) Sched.OError = false.
+Proof. exact SchedEligibleProofs.reachable_no_error_when_recent. Qed.
+Print Assumptions C05_recent_reporter_no_error.
+
+(* Non-vacuity: members 1,2 healthy, member 3 failed (65 ago, its NodeHost 13 silent as long), one spare NodeHost 14
+   that last reported at t4.  t4 = now - 55: the ADD onto 14 is allowed and the error is not; t4 = now - 65: the
+   other way round. *)
+Definition Ectx (t4 : N) : Sched.sctx :=
+  SchedRun.CTX 1000 [mkSD 1 [1;2;3] 7]
+    [SchedRun.SH 1 5 [SchedRun.REP 1 1 11 1000 10; SchedRun.REP 1 2 12 1000 10; SchedRun.REP 1 3 13 935 10]]
+    [SchedRun.HOST 11 1 1000 [] [1]; SchedRun.HOST 12 1 1000 [] [1]; SchedRun.HOST 13 1 935 [] [1]; SchedRun.HOST 14 1 t4 [] []] [].
+Definition Eadd : request := SchedRun.REQ 2 1 [77] 5 [] [14] 0 11 false false 0.
+Example ex_recent_spare_is_used :
+  bool_decide (Sched.ctx_wf (Ectx 945)) = true /\
+  (Sched.repair_action P0 (Ectx 945) <$> Sched.entries (Ectx 945)) = [Sched.AAdd] /\
+  Sched.allowed P0 (Ectx 945) Sched.OError = false /\ Sched.allowed P0 (Ectx 945) (Sched.OBatch [Eadd]) = true /\
+  Sched.allowed P0 (Ectx 945) (Sched.OBatch []) = false.
+Proof. vm_compute. repeat split; reflexivity. Qed.
+Example ex_silent_spare_is_not_used :
+  (Sched.repair_action P0 (Ectx 935) <$> Sched.entries (Ectx 935)) = [Sched.AAdd] /\
+  Sched.allowed P0 (Ectx 935) Sched.OError = true /\ Sched.allowed P0 (Ectx 935) (Sched.OBatch [Eadd]) = false.
+Proof. vm_compute. repeat split; reflexivity. Qed.
